@@ -1,6 +1,9 @@
 """C16 – timeout wrapper: real `haiway.timeout` on the virtual loop vs `hwmodel timeout`.
 
-case:  d=<n> k=<val|exc|base|self|fval|fexc|fbase> ig=<0|1> D=<n> c=<n|->
+case:  d=<n> k=<val|exc|base|self|fval|fexc|fbase> ig=<0|1> D=<n> c=<n|-> [st=<n>]
+   st  the function handed to `timeout(D)` is itself a timeout wrapper, `timeout(st)(fn)`, with `st` far beyond every other
+       instant: stacking must not change anything observable (a wrapped callable is an object with attributes of its own;
+       the model never sees `st`)
    or  multi D=<n> / s=<start> d= k= ig= c= / s=… (overlapping calls through ONE wrapper; c relative to the call's start;
        observation = the per-call observations joined by " / ", instants relative to each call's start)
   d  instant at which the wrapped function's own delay is over (0: it never suspends)
@@ -88,6 +91,21 @@ def parse_full(case: str):
     return d, f["k"], f["ig"] == "1", dl, c, ck
 
 
+def stacked(case: str) -> int | None:
+    for t in case.split():
+        if t.startswith("st="):
+            return int(t[3:])
+    return None
+
+
+def strip_st(case: str) -> str:
+    return " ".join(t for t in case.split() if not t.startswith("st="))
+
+
+def model_input(case: str, out: str) -> str:
+    return strip_st(case)
+
+
 def parse(case: str):
     return parse_full(case)[:5]
 
@@ -140,6 +158,9 @@ def generate(rng, tier):
         for c in sorted({d, dl}):
             for ck in range(6):
                 yield fmt(d, k, ig, dl, c, ck)
+    # the wrapped callable is itself a timeout wrapper with a far deadline: nothing observable may change
+    for d, k, ig, dl, c in itertools.product((0, 1, 3, 6), BASE_KINDS, (False, True), (0, 1, 3, 4, 8), (None, 0, 2, 3, 7)):
+        yield fmt(d, k, ig, dl, c) + " st=1000"
     # two overlapping calls through ONE wrapper: an early short one and a later one, all orders of completion
     for dl, s2, d1, k1, d2, k2, ig2, c2 in itertools.product((2, 4), (0, 1, 2), (1, 3), ("val", "exc"), (0, 2, 9),
                                                              BASE_KINDS, (False, True), (None, 1, 4)):
@@ -219,7 +240,12 @@ def run_real(case: str) -> str:
         n = len(calls)
         info = [{"started": False, "seen": 0, "ended": None, "task": None} for _ in range(n)]
 
-        @timeout(dl)          # ONE wrapper for all calls of the case
+        st = None if multi else stacked(case)
+
+        def deco(f):
+            return timeout(dl)(timeout(st)(f) if st is not None else f)    # ONE wrapper for all calls of the case
+
+        @deco
         async def fn(i: int):
             me = info[i]
             _s, d, kind, ig, _c = calls[i]
